@@ -218,7 +218,8 @@ GenerateFails(e) ==
   \cup (IF On("C02") THEN F(P_C02g(b, now, rings, g), "C02.generate") ELSE {})
   \cup (IF On("C09") THEN F(P_C09g(b, now, rings, ops, g), "C09.generate") ELSE {})
   \cup (IF On("C05") THEN F(P_GenSig(b, now, rings, ops, g), "C05.sig") \cup C05GenFails(e, b)
-                          \cup F(ref.ret = "tok" => e.ret = "tok", "C05.generate") ELSE {})
+                          \* (a generate that met an allocation fault may return NULL: C05 speaks about the tokens that ARE returned)
+                          \cup F((ref.ret = "tok" /\ ~Has(e, "fault_site")) => e.ret = "tok", "C05.generate") ELSE {})
   \cup (IF On("C14") THEN F(P_C14g(e.ret, e.err, e.msg), "C14.generate") ELSE {})
   \cup (IF On("C13") /\ Has(e, "fresh") THEN
           F(e.ret = e.fresh.ret, "C13.generate.ret")
@@ -331,8 +332,24 @@ FailedThroughChannel(e) ==
     [] e.e = "Verify" -> e.ret # 0
     [] e.e = "Generate" -> e.ret = "null"
     [] OTHER -> FALSE
+\* After a configuration call that met the fault, the rest of the case runs without faults ("post" = script index of
+\* that call).  A failed setter leaves the object with its old or its new configuration - or with something
+\* stricter; what it must not leave is a checker that accepts a token which neither accepts ("never accepts a token
+\* it would otherwise reject"): base = the fault-free run (new configuration), skips[post] = the run without that
+\* call (old one).  What a builder holds after a refused set is not stated (a replacing set that fails has removed
+\* the member: the named deviation of MSet), so tokens generated afterwards are not judged here.
+NoFault == [on |-> FALSE, opi |-> 0, base |-> <<>>, skipidx |-> 0, skips |-> [k \in {} |-> <<>>]]
+PostFails(e) ==
+  LET q == fault.opi + 1
+      b == fault.base[q]
+      hasSk == e.post \in DOMAIN fault.skips /\ q - 1 >= 1 /\ q - 1 <= Len(fault.skips[e.post])
+      sk == fault.skips[e.post][q - 1]
+  IN IF q > Len(fault.base) \/ e.e # b.e THEN {}
+     ELSE CASE e.e = "Verify" -> F(e.ret = 0 => (b.ret = 0 \/ (hasSk /\ sk.e = "Verify" /\ sk.ret = 0)), "C17.state-after-failure")
+            [] OTHER -> {}
 FaultFails(e) ==
   IF ~fault.on \/ ~On("C17") THEN {}
+  ELSE IF Has(e, "post") THEN PostFails(e)
   ELSE IF fault.opi + 1 > Len(fault.base) THEN {"C17.extra-event"}
   ELSE LET b == fault.base[fault.opi + 1] IN
        F(e.e = b.e, "C17.event-order")
@@ -344,7 +361,7 @@ FaultFails(e) ==
 \* an RSA key file is either rsaEncryption or id-RSASSA-PSS; "the identical key" is of the same type
 SameRsaType(e, imp) == (e.kty = "RSA" /\ Has(imp.mat, "pss")) => (imp.mat.pss = 1 <=> e.base \in PssBases)
 LeakProps == {"C06", "C07", "C16", "C17", "C11", "FULL"}
-IsOpEvent(e) == e.e \notin {"Case", "EndCase", "End", "Abort", "FaultRun", "FaultEnd"}
+IsOpEvent(e) == e.e \notin {"Case", "EndCase", "End", "Abort", "FaultRun", "FaultEnd", "SkipRun"}
 Fails(e) == (IF IsOpEvent(e) THEN FaultFails(e) ELSE {}) \cup
   CASE e.e = "Load" -> LoadFails(e)
     [] e.e \in {"ItemGet", "Count", "Find", "ItemFree", "FreeBad", "FreeAll", "ErrAny"} -> RingFails(e)
@@ -432,7 +449,7 @@ TInit ==
   /\ Init
   /\ l = 1 /\ viol = <<>> /\ skipping = FALSE /\ curcase = "-" /\ memo = [k \in {} |-> 0]
   /\ cnt = [cases |-> 0, judged |-> 0, skipped |-> 0, shortrs |-> 0, faultruns |-> 0]
-  /\ fault = [on |-> FALSE, opi |-> 0, base |-> <<>>]
+  /\ fault = NoFault
 
 MaxViol == 200
 
@@ -444,14 +461,20 @@ TNext ==
           /\ Reset
           /\ curcase' = e.id /\ skipping' = FALSE /\ memo' = [k \in {} |-> 0]
           /\ cnt' = [cnt EXCEPT !.cases = @ + 1]
-          /\ fault' = [on |-> FALSE, opi |-> 0, base |-> <<>>]
+          /\ fault' = NoFault
           /\ UNCHANGED viol
+     ELSE IF e.e = "SkipRun" THEN
+          \* the same case once more without configuration call number e.skip (no fault): collected as skips[e.skip]
+          /\ Reset
+          /\ skipping' = FALSE /\ memo' = [k \in {} |-> 0]
+          /\ fault' = [fault EXCEPT !.on = FALSE, !.skipidx = e.skip, !.skips = (e.skip :> <<>>) @@ @]
+          /\ UNCHANGED <<viol, curcase, cnt>>
      ELSE IF e.e = "FaultRun" THEN
           \* a new run of the same case with allocation request k failing: fresh state, same base
           /\ Reset
           /\ skipping' = FALSE /\ memo' = [k \in {} |-> 0]
           /\ cnt' = [cnt EXCEPT !.faultruns = @ + 1]
-          /\ fault' = [fault EXCEPT !.on = TRUE, !.opi = 0]
+          /\ fault' = [fault EXCEPT !.on = TRUE, !.opi = 0, !.skipidx = 0]
           /\ UNCHANGED <<viol, curcase>>
      ELSE IF skipping /\ e.e # "Abort" THEN
           /\ cnt' = [cnt EXCEPT !.skipped = @ + 1]
@@ -469,7 +492,9 @@ TNext ==
                                      !.shortrs = IF e.e = "Generate" /\ Has(e, "rs_short") /\ e.rs_short = 1 THEN @ + 1 ELSE @]
                /\ fault' = IF ~IsOpEvent(e) THEN fault
                            ELSE IF fault.on THEN [fault EXCEPT !.opi = @ + 1]
-                           ELSE IF Prop = "C17" THEN [fault EXCEPT !.base = Append(@, e)] ELSE fault
+                           ELSE IF Prop # "C17" THEN fault
+                           ELSE IF fault.skipidx # 0 THEN [fault EXCEPT !.skips[fault.skipidx] = Append(@, e)]
+                           ELSE [fault EXCEPT !.base = Append(@, e)]
                /\ UNCHANGED <<viol, skipping, curcase>>
 
 TSpec == TInit /\ [][TNext]_<<vars, tvars>>
